@@ -48,6 +48,17 @@ CLAIMED = {
         design='5.1 C06', technique='Coq proof (completeness of the look-ahead on single-line runs, two-run lock-step) + differential correspondence',
         note=COMMON_NOTE + ' Hypotheses of the stability theorem: no always_break/align/fill/contextual, nest offsets >= 0 '
              '(what the bundled printers build apart from strings).'),
+    'C18': dict(
+        text='Theorems C18_override, C18_set_exact (induction over arbitrary set_default_config sequences), '
+             'C18_entry_points_plumbing / C18_entry_points_agree (Proofs/ConfigProofs.v, Props/C18.v), proved from '
+             'the keyword plumbing of pformat/pprint/cpprint/_merge_defaults/set_default_config/PrettyPrinter/'
+             'pretty_repr that the translator regenerates from __init__.py on every run (Gen/EntryPoints.v): dropping '
+             'or misrouting a setting in one entry point breaks the proof. The model run_cfg is executed against the '
+             'implementation on random histories; every call must print exactly what the pipeline below the entry '
+             'points prints at the effective settings.',
+        design='5.6 C18', technique='Coq proof over source-derived plumbing facts (translator) + differential histories',
+        note=COMMON_NOTE + ' The renderers and python_to_sdocs themselves are covered by C04/C01; here they are the '
+             'reference the entry points are compared with. cpprint is exercised with colour disabled.'),
 }
 
 PENDING = 'check not built yet in this round (see DESIGN.md section 8 for the order of work)'
